@@ -29,6 +29,9 @@ func DKGAsync(backend string, n, t, msgLen int, delayed map[MsgID]bool, timeout 
 	return DKGAsyncOpt(backend, n, t, msgLen, delayed, timeout, false)
 }
 
+// AsyncDup: messages that are delivered twice (set and reset by the case that uses it).
+var AsyncDup map[MsgID]bool
+
 // DKGAsyncOpt: with fifo set, every sender->receiver link keeps its order: a delayed message holds
 // back what the same sender emits to the same receiver after it (links are delayed against one
 // another, never reordered within themselves).
@@ -111,6 +114,11 @@ func DKGAsyncOpt(backend string, n, t, msgLen int, delayed map[MsgID]bool, timeo
 		}
 		trace = append(trace, p.id.String())
 		inst[p.id.To].OnMsg(p.msg, p.id.From, p.bc)
+		if AsyncDup[p.id] {
+			// a retransmitting link: the same message once more, right behind the first copy
+			trace = append(trace, p.id.String()+" (again)")
+			inst[p.id.To].OnMsg(append([]byte(nil), p.msg...), p.id.From, p.bc)
+		}
 	}
 	synctest.Wait()
 	mu.Lock()
